@@ -57,17 +57,16 @@ fn c01e_lzma2_writer_header() {
 
 // C01-E / C19-C: the flags the two real constructors start with agree: the writer's first chunk always carries what the
 // reader requires of a first chunk (dictionary reset unless a NON-EMPTY preset dictionary is in use on both sides).
-//@ {"name":"c19c_lzma2_preset_dict_flags","props":["C19","C01"],"obligation":"C19-C","timeout":1500,"mem_gb":9,"functions":["enc::lzma2_writer::LZMA2Writer::new","lzma2_reader::LZMA2Reader::new","lz::lz_encoder::LZEncoderData::set_preset_dict"],"bounds":"preset dictionary: None, Some(empty), Some(1..=3 arbitrary bytes) (symbolic choice); dict 4096; unwind 10","assumes":[]}
+//@ {"name":"c19c_lzma2_preset_dict_flags","props":["C19","C01"],"obligation":"C19-C","timeout":1500,"mem_gb":9,"functions":["enc::lzma2_writer::LZMA2Writer::new","lzma2_reader::LZMA2Reader::new","lz::lz_encoder::LZEncoderData::set_preset_dict"],"bounds":"preset dictionary: None, Some(empty), Some([1,2,3]) (symbolic choice); dict 4096; unwind 10","assumes":[]}
 #[kani::proof]
 #[kani::unwind(10)]
 #[kani::stub(crate::enc::encoder::LZMAEncoder::new, crate::enc::encoder::verif_stubs_enc::verif_cheap_encoder)]
 fn c19c_lzma2_preset_dict_flags() {
     let kind: u8 = kani::any();
     kani::assume(kind < 3);
-    let bytes: [u8; 3] = kani::any();
-    let n: usize = kani::any();
-    kani::assume(n >= 1 && n <= 3);
-    let preset: Option<Vec<u8>> = match kind { 0 => None, 1 => Some(Vec::new()), _ => Some(bytes[..n].to_vec()) };
+    // concrete preset bytes (symbolic ones are hashed into the real match-finder tables: 9 GB OOM)
+    let bytes: [u8; 3] = [1, 2, 3];
+    let preset: Option<Vec<u8>> = match kind { 0 => None, 1 => Some(Vec::new()), _ => Some(bytes.to_vec()) };
     let mut sink = Sink::<8>::new();
     let w = LZMA2Writer::new(&mut sink, w_opts(preset.clone(), None));
     let r = crate::LZMA2Reader::new(Src::<1>::full([0]), 4096, preset.as_deref());
